@@ -11,6 +11,7 @@ import (
 	"testing"
 
 	"github.com/google/osv-scalibr/artifact/image/layerscanning/image"
+	"github.com/google/osv-scalibr/artifact/image/require"
 	"github.com/google/osv-scalibr/extractor"
 	"github.com/google/osv-scalibr/extractor/filesystem"
 	"github.com/google/osv-scalibr/inventory"
@@ -47,9 +48,9 @@ type listExtractor struct {
 	nilPurl  bool // packages named "nopurl*" have no purl
 }
 
-func (e *listExtractor) Name() string                       { return e.name }
-func (e *listExtractor) Version() int                       { return 1 }
-func (e *listExtractor) Requirements() *plugin.Capabilities { return &plugin.Capabilities{} }
+func (e *listExtractor) Name() string                        { return e.name }
+func (e *listExtractor) Version() int                        { return 1 }
+func (e *listExtractor) Requirements() *plugin.Capabilities  { return &plugin.Capabilities{} }
 func (e *listExtractor) Ecosystem(*extractor.Package) string { return "" }
 func (e *listExtractor) ToPURL(p *extractor.Package) *purl.PackageURL {
 	if e.nilPurl && strings.HasPrefix(p.Name, "nopurl") {
@@ -75,8 +76,8 @@ func (e *listExtractor) Extract(ctx context.Context, in *filesystem.ScanInput) (
 
 // fileAction is what one layer does to one package-list file.
 type fileAction struct {
-	Kind string   `json:"kind"` // write | delete | delete_dir
-	File int      `json:"file"` // index into c05Case.Files
+	Kind string   `json:"kind"`           // write | delete | delete_dir
+	File int      `json:"file"`           // index into c05Case.Files
 	Pkgs []string `json:"pkgs,omitempty"` // "name version" lines for write
 }
 
@@ -94,6 +95,9 @@ type c05Case struct {
 	EmptyAfter   int        `json:"empty_after,omitempty"`
 	TwoExtractor bool       `json:"two_extractors,omitempty"` // a second extractor also requires files[0]
 	NilPurl      bool       `json:"nil_purl,omitempty"`
+	// Requirer: which files the image loader is told to keep: 0 all of them (the default), 1 the
+	// package lists named by relative path, 2 by slash-rooted path, 3 by both.
+	Requirer int `json:"requirer,omitempty"`
 }
 
 // classes of C04 findings that change the views this check relies on; while they are
@@ -219,6 +223,7 @@ func genC05(t *rapid.T) c05Case {
 		col.Excluded(c05NilPurl)
 		c.NilPurl = false
 	}
+	c.Requirer = rapid.SampledFrom([]int{0, 0, 0, 1, 2, 3}).Draw(t, "requirer")
 	return c
 }
 
@@ -274,7 +279,21 @@ func propC05(c c05Case) (ev.Outcome, error) {
 	if err != nil {
 		return o, nil
 	}
-	img, err := image.FromV1Image(v1img, image.DefaultConfig())
+	icfg := image.DefaultConfig()
+	if c.Requirer != 0 {
+		var want []string
+		for _, f := range c.Files {
+			if c.Requirer&1 != 0 {
+				want = append(want, f)
+			}
+			if c.Requirer&2 != 0 {
+				want = append(want, "/"+f)
+			}
+		}
+		icfg.Requirer = require.NewFileRequirerPaths(want)
+		o.Classes = append(o.Classes, fmt.Sprintf("requirer_paths_%d", c.Requirer))
+	}
+	img, err := image.FromV1Image(v1img, icfg)
 	if err != nil {
 		return o, fmt.Errorf("FromV1Image failed on a well-formed image: %v", err)
 	}
